@@ -451,6 +451,10 @@ func runTransfer(t *testing.T, sc Scenario, sum *summary, tf *vh.TraceFile) {
 		w.Ev(map[string]any{"ev": "afterclose", "conn": "cli", "close2_err": err2 != nil, "write_err": werr != nil})
 		// every goroutine and scheduled callback of the library must be gone a little later
 		time.Sleep(12 * time.Second)
+		if sc.RateLimit > 0 {
+			// a paced session still sends what was queued when it was closed: up to 2048 packets at the configured rate
+			time.Sleep(time.Duration(2048*1500/sc.RateLimit+1) * time.Second)
+		}
 		synctest.Wait()
 		leaks := []string{}
 		backlogLeaks := 0
